@@ -29,6 +29,15 @@ LOOPS = [
     ("for x = 1; x < 4; x++", "x", [1, 2, 3]), ("x = 0; for x < 3", "(x = x + 1)", None), ("x = 0; for", "(x = x + 1)", None),
 ]
 
+# switch compares its cases with the subject as it was when the switch was entered: a case expression that writes to the
+# place the subject was read from (a list slot, an element of a typed slice, a map entry) does not move it
+for _init, _read, _write in (("a = [1]", "a[0]", "a[0] = 9"), ("a = make([]int64, 1); a[0] = 1", "a[0]", "a[0] = 9"), ("a = {\"k\": 1}", "a.k", "a.k = 9"),
+                             ("a = [[1]]", "a[0][0]", "a[0][0] = 9")):
+    EXPECT.append({"src": "%s\ns = 0\nswitch %s {\ncase func() { %s; return 9 }(): s = 1\ncase 1: s = 2\ndefault: s = 3\n}\ns" % (_init, _read, _write), "field": "result",
+                   "want": "i:2", "why": "switch runs the first case equal to its subject; the subject is the value at the switch statement"})
+    EXPECT.append({"src": "%s\ns = 0\nfunc touch() { %s; return 5 }\nswitch %s {\ncase touch(), 9: s = 1\ndefault: s = 3\n}\ns" % (_init, _write, _read), "field": "result",
+                   "want": "i:3", "why": "a later value of the same case list is compared with the subject as it was, too"})
+
 
 def product():
     out = []
